@@ -51,8 +51,8 @@ class C05(Prop):
 
         self.rig = udp.UdpRig(ctx["shard"])
         self.rig.install(asyncio.get_running_loop())
-        self.port = self.rig.free_ports(1)[0]
-        self.bridge = SwitcherBridge(self.rig.log.callback, [self.port])
+        self.port, self.port2 = self.rig.free_ports(2)
+        self.bridge = SwitcherBridge(self.rig.log.callback, [self.port, self.port2])
         await self.bridge.start()
         self.ports = [self.port]
         self.default_bridge = None
@@ -136,9 +136,35 @@ class C05(Prop):
                     self.pool[r.randrange(16)] = tag
             model = gen.MODELS[j % 9]
             d = gen.broadcast_desc(r, model, j, tag)
-            data = rb.encode(d, filler=r.randbytes(168) if k % 2 else None)
+            filler = r.randbytes(168) if k % 2 else None
+            data = rb.encode(d, filler=filler)
             sent.append((d, data))
             self.rig.send(port, data)
+            if k % 8 == 1:
+                # the same device again with exactly one detail changed (one octet of its MAC or IP, its key, one letter of its
+                # name, its state): every other byte of the datagram is identical to the previous one
+                d2 = dict(d)
+                what = r.choice(["mac", "mac_last", "ip", "device_key", "name", "state"])
+                if what.startswith("mac"):
+                    parts = d["mac"].split(":")
+                    pos = 5 if what == "mac_last" else r.randrange(6)
+                    parts[pos] = f"{(int(parts[pos], 16) + r.randrange(1, 255)) % 256:02X}"
+                    d2["mac"] = ":".join(parts)
+                elif what == "ip":
+                    parts = d["ip"].split(".")
+                    pos = r.randrange(4)
+                    parts[pos] = str((int(parts[pos]) + r.randrange(1, 255)) % 256)
+                    d2["ip"] = ".".join(parts)
+                elif what == "device_key":
+                    d2["device_key"] = f"{(int(d['device_key'], 16) + r.randrange(1, 255)) % 256:02x}"
+                elif what == "name" and d["name"].isascii() and len(d["name"]) >= 2:
+                    d2["name"] = d["name"][:-1] + ("x" if d["name"][-1] != "x" else "y")
+                else:
+                    d2 = gen.broadcast_desc(r, model, j, tag)
+                data2 = rb.encode(d2, filler=filler)
+                sent.append((d2, data2))
+                self.rig.send(port, data2)
+                acc.count("repeats_with_one_detail_changed")
             if k % 10 == 3:
                 # what else is on the wire: an undecodable frame of the same device, foreign bytes, an unknown model
                 bad = bytearray(data)
@@ -170,6 +196,29 @@ class C05(Prop):
         if res == "lost":
             acc.violation("sentinel-never-delivered", "a valid sentinel broadcast was consumed by the bridge but never reached the callback",
                           {"events": [str(o) for o in others][:5]})
+        if res == "ok" and len(delivered) == len(sent) and sent:
+            # the same bytes once more, this time to another port of the same bridge (devices broadcast to the old and the new
+            # port): one more well-formed broadcast, one more delivery
+            other = self.port2 if port == self.port else (self.port if port == self.port2 else [p for p in (20002, 10002, 20003, 10003) if p != port][i % 3])
+            d_last, data_last = sent[-1]
+            n_before = len([1 for k2, p2 in log.events if k2 == "device" and not udp.is_sentinel(p2)])
+            self.rig.send(port, data_last)      # original and copy back to back, nothing in between
+            self.rig.send(other, data_last)
+            res2 = await self.rig.barrier(port)
+            res2 = await self.rig.barrier(other) if res2 == "ok" else res2
+            acc.count("copies_sent_to_another_port_of_the_same_bridge")
+            if res2 == "ok":
+                now_dev = [p2 for k2, p2 in log.events if k2 == "device" and not udp.is_sentinel(p2)]
+                acc.ev(2)
+                if len(now_dev) - n_before != 2:
+                    acc.violation(f"delivery-count-wrong:{rb.MODELS[d_last['model']][2]}:copy-on-another-port", f"the same well-formed broadcast sent to port {port} and, "
+                                  f"right after, to port {other} of the same bridge: {len(now_dev) - n_before} devices delivered, want 2", {"desc": d_last})
+                else:
+                    for dev_ in now_dev[-2:]:
+                        for field, got, want in rb.compare_device(dev_, d_last):
+                            acc.violation(f"field-wrong:{rb.MODELS[d_last['model']][2]}:{field}", f"{d_last['model']} copy on another port: {field} = {got!r}, want {want!r}", {"desc": d_last})
+            elif res2 == "dropped":
+                acc.inconclusive_because("kernel dropped datagrams (drops>0 in /proc/net/udp)")
         acc.ev(len(sent))
         acc.count(f"batches_on_port_{'default' if port in (20002, 10002, 20003, 10003) else 'custom'}")
         acc.count("devices_delivered", len(delivered))
